@@ -72,6 +72,7 @@ FP_TYPES = ["float", "double"]
 RET_TYPES = ["void"] + INT_TYPES + FP_TYPES
 SUBINT = ("char", "uchar", "short", "ushort")
 
+DIRNAME = {"A": "callee (gcc calls ppci)", "B": "caller (ppci calls gcc)", "C": "pass-through (gcc -> ppci -> gcc)"}
 FLAG_NAMES = ["rbx changed", "rbp changed", "r12 changed", "r13 changed", "r14 changed", "r15 changed",
               "rsp not restored", "stack not 16-byte aligned at call"]
 
@@ -79,7 +80,7 @@ FLAG_NAMES = ["rbx changed", "rbp changed", "r12 changed", "r13 changed", "r14 c
 # signature and value generation
 
 
-def gen_signature(r, avoid, force_ret=None):
+def gen_signature(r, force_ret=None):
     n = r.choice([0, 1, 2, 3, 4, 5, 6, 7, 8, 9, 10, 11, 12, 7, 8, 9, 10, 11, 12])
     profile = r.choice(["int", "fp", "mixed", "mixed", "alt"])
     params = []
@@ -94,26 +95,32 @@ def gen_signature(r, avoid, force_ret=None):
             fp = r.random() < 0.5
         params.append(r.choice(FP_TYPES) if fp else r.choice(INT_TYPES))
     ret = force_ret or r.choice(RET_TYPES)
-    return apply_avoid(ret, params, avoid)
+    return ret, params
 
 
-def apply_avoid(ret, params, avoid):
-    """The avoid switches rewrite exactly the parameter positions/types of the open findings."""
+F_SUBINT = "stack-passed-char-short-argument"
+F_FPCALL = "stack-passed-float-double-argument-in-call"
+F_FPSLOT = "stack-passed-float-parameter-slot-is-4-bytes"
+
+
+def apply_avoid(params, avoid):
+    """The avoid switches rewrite exactly the parameter positions/types of the open findings.
+    -> (params, directions, keys of the switches that changed something)"""
     out = []
-    ni = nf = 0
-    for t in params:
-        if TYPES[t][2] == "I":
-            ni += 1
-            if ni > 6 and t in SUBINT and "stack-passed-char-short-argument" in avoid:
-                t = "int" if t in ("char", "short") else "uint"
-        else:
-            nf += 1
-            if nf > 8 and "stack-passed-float-double-argument" in avoid:
-                nf -= 1
-                ni += 1
-                t = "long" if t == "double" else "int"
+    used = []
+    dirs = "ABC"
+    for t, where in zip(params, classify(params)):
+        if where == "stack" and t in SUBINT and F_SUBINT in avoid:
+            t = "int" if t in ("char", "short") else "uint"     # the same stack slot, passed as a full int
+            used.append(F_SUBINT)
+        if where == "stack" and t == "float" and F_FPSLOT in avoid:
+            t = "double"                                        # the same stack slot, 8 bytes wide
+            used.append(F_FPSLOT)
+        if where == "stack" and TYPES[t][2] == "F" and F_FPCALL in avoid:
+            dirs = "A"                                          # ppci is only the callee for this signature
+            used.append(F_FPCALL)
         out.append(t)
-    return ret, out
+    return out, dirs, sorted(set(used))
 
 
 def classify(params):
@@ -361,61 +368,65 @@ def build_sources(sigs):
     expected = []
     for s in sigs:
         k, ret, params = s["k"], s["ret"], s["params"]
+        dirs = s.get("dirs", "ABC")
         n = len(params)
         T = cty(ret)
         args = ", ".join("a%d" % i for i in range(n))
         proto = plist(params)
         keep = 2 if ret == "void" else (1 if TYPES[ret][2] == "F" else 0)
         # --- A: ppci callee
-        for i, t in enumerate(params):
-            pc.append("extern %s gotA_%d_%d;" % (cty(t), k, i))
-            dc.append("%s gotA_%d_%d;" % (cty(t), k, i))
-        if ret != "void":
-            pc.append("extern %s retA_%d;" % (T, k))
-            dc.append("%s retA_%d;" % (T, k))
-        body = " ".join("gotA_%d_%d = a%d;" % (k, i, i) for i in range(n))
-        pc.append("%s fA_%d(%s) { %s %s }" % (T, k, proto, body, "return retA_%d;" % k if ret != "void" else ""))
-        dc.append("extern %s fA_%d_thunk(%s);" % (T, k, proto))
-        sh.append("    THUNK_IN fA_%d_thunk, fA_%d" % (k, k))
+        if "A" in dirs:
+            for i, t in enumerate(params):
+                pc.append("extern %s gotA_%d_%d;" % (cty(t), k, i))
+                dc.append("%s gotA_%d_%d;" % (cty(t), k, i))
+            if ret != "void":
+                pc.append("extern %s retA_%d;" % (T, k))
+                dc.append("%s retA_%d;" % (T, k))
+            body = " ".join("gotA_%d_%d = a%d;" % (k, i, i) for i in range(n))
+            pc.append("%s fA_%d(%s) { %s %s }" % (T, k, proto, body, "return retA_%d;" % k if ret != "void" else ""))
+            dc.append("extern %s fA_%d_thunk(%s);" % (T, k, proto))
+            sh.append("    THUNK_IN fA_%d_thunk, fA_%d" % (k, k))
         # --- B: ppci caller
-        for i, t in enumerate(params):
-            pc.append("extern %s inB_%d_%d;" % (cty(t), k, i))
-            dc.append("%s inB_%d_%d; %s gotB_%d_%d;" % (cty(t), k, i, cty(t), k, i))
-        pc.append("extern long liveB_%d;" % k)
-        dc.append("long liveB_%d;" % k)
-        if ret != "void":
-            pc.append("extern %s outB_%d;" % (T, k))
-            dc.append("%s outB_%d; %s retB_%d;" % (T, k, T, k))
-        pc.append("%s gB_%d(%s);" % (T, k, proto))
-        call = "gB_%d(%s);" % (k, ", ".join("inB_%d_%d" % (k, i) for i in range(n)))
-        pc.append("void cB_%d(long x, long y) { long t = x * 3 + y; %s%s liveB_%d = t - x; }" % (
-            k, "outB_%d = " % k if ret != "void" else "", call, k))
-        dc.append("%s gB_%d_real(%s) { %s %s }" % (
-            T, k, proto, " ".join("gotB_%d_%d = a%d;" % (k, i, i) for i in range(n)),
-            "return retB_%d;" % k if ret != "void" else ""))
-        dc.append("extern void cB_%d_thunk(long, long);" % k)
-        sh.append("    THUNK_IN cB_%d_thunk, cB_%d" % (k, k))
-        sh.append("    THUNK_OUT gB_%d, gB_%d_real, %d" % (k, k, keep))
+        if "B" in dirs:
+            for i, t in enumerate(params):
+                pc.append("extern %s inB_%d_%d;" % (cty(t), k, i))
+                dc.append("%s inB_%d_%d; %s gotB_%d_%d;" % (cty(t), k, i, cty(t), k, i))
+            pc.append("extern long liveB_%d;" % k)
+            dc.append("long liveB_%d;" % k)
+            if ret != "void":
+                pc.append("extern %s outB_%d;" % (T, k))
+                dc.append("%s outB_%d; %s retB_%d;" % (T, k, T, k))
+            pc.append("%s gB_%d(%s);" % (T, k, proto))
+            call = "gB_%d(%s);" % (k, ", ".join("inB_%d_%d" % (k, i) for i in range(n)))
+            pc.append("void cB_%d(long x, long y) { long t = x * 3 + y; %s%s liveB_%d = t - x; }" % (
+                k, "outB_%d = " % k if ret != "void" else "", call, k))
+            dc.append("%s gB_%d_real(%s) { %s %s }" % (
+                T, k, proto, " ".join("gotB_%d_%d = a%d;" % (k, i, i) for i in range(n)),
+                "return retB_%d;" % k if ret != "void" else ""))
+            dc.append("extern void cB_%d_thunk(long, long);" % k)
+            sh.append("    THUNK_IN cB_%d_thunk, cB_%d" % (k, k))
+            sh.append("    THUNK_OUT gB_%d, gB_%d_real, %d" % (k, k, keep))
         # --- C: pass-through
-        for i, t in enumerate(params):
-            dc.append("%s gotC_%d_%d;" % (cty(t), k, i))
-        pc.append("extern long liveC_in_%d; extern long liveC_out_%d;" % (k, k))
-        dc.append("long liveC_in_%d, liveC_out_%d;" % (k, k))
-        if ret != "void":
-            dc.append("%s retC_%d;" % (T, k))
-        pc.append("%s gC_%d(%s);" % (T, k, proto))
-        if ret != "void":
-            pc.append("%s pC_%d(%s) { long t = liveC_in_%d * 5; %s r = gC_%d(%s); liveC_out_%d = t + 1; return r; }" % (
-                T, k, proto, k, T, k, args, k))
-        else:
-            pc.append("void pC_%d(%s) { long t = liveC_in_%d * 5; gC_%d(%s); liveC_out_%d = t + 1; }" % (
-                k, proto, k, k, args, k))
-        dc.append("%s gC_%d_real(%s) { %s %s }" % (
-            T, k, proto, " ".join("gotC_%d_%d = a%d;" % (k, i, i) for i in range(n)),
-            "return retC_%d;" % k if ret != "void" else ""))
-        dc.append("extern %s pC_%d_thunk(%s);" % (T, k, proto))
-        sh.append("    THUNK_IN pC_%d_thunk, pC_%d" % (k, k))
-        sh.append("    THUNK_OUT gC_%d, gC_%d_real, %d" % (k, k, keep))
+        if "C" in dirs:
+            for i, t in enumerate(params):
+                dc.append("%s gotC_%d_%d;" % (cty(t), k, i))
+            pc.append("extern long liveC_in_%d; extern long liveC_out_%d;" % (k, k))
+            dc.append("long liveC_in_%d, liveC_out_%d;" % (k, k))
+            if ret != "void":
+                dc.append("%s retC_%d;" % (T, k))
+            pc.append("%s gC_%d(%s);" % (T, k, proto))
+            if ret != "void":
+                pc.append("%s pC_%d(%s) { long t = liveC_in_%d * 5; %s r = gC_%d(%s); liveC_out_%d = t + 1; return r; }" % (
+                    T, k, proto, k, T, k, args, k))
+            else:
+                pc.append("void pC_%d(%s) { long t = liveC_in_%d * 5; gC_%d(%s); liveC_out_%d = t + 1; }" % (
+                    k, proto, k, k, args, k))
+            dc.append("%s gC_%d_real(%s) { %s %s }" % (
+                T, k, proto, " ".join("gotC_%d_%d = a%d;" % (k, i, i) for i in range(n)),
+                "return retC_%d;" % k if ret != "void" else ""))
+            dc.append("extern %s pC_%d_thunk(%s);" % (T, k, proto))
+            sh.append("    THUNK_IN pC_%d_thunk, pC_%d" % (k, k))
+            sh.append("    THUNK_OUT gC_%d, gC_%d_real, %d" % (k, k, keep))
         # --- driver runs
         fn = ["static void run_%d(void) {" % k]
         for i, t in enumerate(params):
@@ -464,38 +475,41 @@ def build_sources(sigs):
                     return ['  put("ret", &%s, sizeof(%s));' % (lab, lab)]
                 return []
             # A
-            for i in range(n):
-                fn.append("  FILL(gotA_%d_%d);" % (k, i))
-            if ret != "void":
-                fn.append("  LOAD(retA_%d, %s); FILL(r);" % (k, rv()))
-            fn.append("  thunk_flags = 0;")
-            fn.append("  %sfA_%d_thunk(%s);" % ("r = " if ret != "void" else "", k, xs))
-            fn.append('  printf("A %d %d");' % (k, v))
-            fn += putret("r") + puts("gotA")
-            fn.append('  printf(" flags=%lx\\n", thunk_flags);')
-            expected.append("A %d %d%s%s flags=0" % (k, v, exp_ret, exp_args))
+            if "A" in dirs:
+                for i in range(n):
+                    fn.append("  FILL(gotA_%d_%d);" % (k, i))
+                if ret != "void":
+                    fn.append("  LOAD(retA_%d, %s); FILL(r);" % (k, rv()))
+                fn.append("  thunk_flags = 0;")
+                fn.append("  %sfA_%d_thunk(%s);" % ("r = " if ret != "void" else "", k, xs))
+                fn.append('  printf("A %d %d");' % (k, v))
+                fn += putret("r") + puts("gotA")
+                fn.append('  printf(" flags=%lx\\n", thunk_flags);')
+                expected.append("A %d %d%s%s flags=0" % (k, v, exp_ret, exp_args))
             # B
-            for i in range(n):
-                fn.append("  inB_%d_%d = x%d; FILL(gotB_%d_%d);" % (k, i, i, k, i))
-            if ret != "void":
-                fn.append("  LOAD(retB_%d, %s); FILL(outB_%d);" % (k, rv(), k))
-            fn.append("  liveB_%d = 0; thunk_flags = 0;" % k)
-            fn.append("  cB_%d_thunk(%dL, %dL);" % (k, vec["x"], vec["y"]))
-            fn.append('  printf("B %d %d");' % (k, v))
-            fn += putret("outB_%d" % k) + puts("gotB")
-            fn.append('  printf(" live=%%ld flags=%%lx\\n", liveB_%d, thunk_flags);' % k)
-            expected.append("B %d %d%s%s live=%d flags=0" % (k, v, exp_ret, exp_args, vec["x"] * 2 + vec["y"]))
+            if "B" in dirs:
+                for i in range(n):
+                    fn.append("  inB_%d_%d = x%d; FILL(gotB_%d_%d);" % (k, i, i, k, i))
+                if ret != "void":
+                    fn.append("  LOAD(retB_%d, %s); FILL(outB_%d);" % (k, rv(), k))
+                fn.append("  liveB_%d = 0; thunk_flags = 0;" % k)
+                fn.append("  cB_%d_thunk(%dL, %dL);" % (k, vec["x"], vec["y"]))
+                fn.append('  printf("B %d %d");' % (k, v))
+                fn += putret("outB_%d" % k) + puts("gotB")
+                fn.append('  printf(" live=%%ld flags=%%lx\\n", liveB_%d, thunk_flags);' % k)
+                expected.append("B %d %d%s%s live=%d flags=0" % (k, v, exp_ret, exp_args, vec["x"] * 2 + vec["y"]))
             # C
-            for i in range(n):
-                fn.append("  FILL(gotC_%d_%d);" % (k, i))
-            if ret != "void":
-                fn.append("  LOAD(retC_%d, %s); FILL(r);" % (k, rv()))
-            fn.append("  liveC_in_%d = %dL; liveC_out_%d = 0; thunk_flags = 0;" % (k, vec["x"], k))
-            fn.append("  %spC_%d_thunk(%s);" % ("r = " if ret != "void" else "", k, xs))
-            fn.append('  printf("C %d %d");' % (k, v))
-            fn += putret("r") + puts("gotC")
-            fn.append('  printf(" live=%%ld flags=%%lx\\n", liveC_out_%d, thunk_flags);' % k)
-            expected.append("C %d %d%s%s live=%d flags=0" % (k, v, exp_ret, exp_args, vec["x"] * 5 + 1))
+            if "C" in dirs:
+                for i in range(n):
+                    fn.append("  FILL(gotC_%d_%d);" % (k, i))
+                if ret != "void":
+                    fn.append("  LOAD(retC_%d, %s); FILL(r);" % (k, rv()))
+                fn.append("  liveC_in_%d = %dL; liveC_out_%d = 0; thunk_flags = 0;" % (k, vec["x"], k))
+                fn.append("  %spC_%d_thunk(%s);" % ("r = " if ret != "void" else "", k, xs))
+                fn.append('  printf("C %d %d");' % (k, v))
+                fn += putret("r") + puts("gotC")
+                fn.append('  printf(" live=%%ld flags=%%lx\\n", liveC_out_%d, thunk_flags);' % k)
+                expected.append("C %d %d%s%s live=%d flags=0" % (k, v, exp_ret, exp_args, vec["x"] * 5 + 1))
         fn.append("}")
         runs.append("\n".join(fn))
     dc += runs
@@ -646,7 +660,7 @@ def account(s, level, mon):
 def new_mon():
     return {"evaluations": 0, "nontrivial_hashes": [], "violations": [], "inconclusive": [], "samples": [],
             "discarded": {}, "observed": {"direction": {}, "nparams": {}, "ret": {}, "param_location": {}, "level": {},
-                                          "ppci_errors": {}}}
+                                          "ppci_errors": {}, "avoid_switch_used": {}, "census": {}}}
 
 
 def run_batch(sigs, level, tmp, tag, mon, depth=0):
@@ -662,12 +676,17 @@ def run_batch(sigs, level, tmp, tag, mon, depth=0):
             run_batch(sigs[mid:], level, tmp, tag + "b", mon, depth + 1)
             return
         s = sigs[0]
+        if len(s.get("dirs", "ABC")) > 1:  # which of the three functions does not compile?
+            for d in s.get("dirs", "ABC"):
+                run_batch([dict(s, dirs=d)], level, tmp, tag + d, mon, depth + 1)
+            return
         mon["evaluations"] += 1
         account(s, level, mon)
         k = res["detail"].split(":")[0]
         mon["observed"]["ppci_errors"][k] = mon["observed"]["ppci_errors"].get(k, 0) + 1
         mon["violations"].append({
-            "summary": "x86_64 -O%d %s: ppci cannot compile the functions: %s" % (level, describe(s), res["detail"]),
+            "summary": "x86_64 -O%d %s: ppci cannot compile the %s function: %s" % (
+                level, describe(s), DIRNAME[s.get("dirs", "ABC")[0]], res["detail"]),
             "case": {"signature": describe(s), "level": level, "ppci_source": res["ppci_source"], "error": res["detail"],
                      "sig": s},
             "replay_spec": {"part": "replay", "sigs": [s], "level": level}})
@@ -704,24 +723,29 @@ def plan(tier, seed, avoid):
     specs = []
     for start in range(0, nsig, per):
         specs.append({"part": "gen", "start": start, "count": per})
+    if tier != "quick":  # DESIGN 3.2 (3): the trigger constructs of the open findings, counted, not judged
+        for start in range(0, 2000, 100):
+            specs.append({"part": "census", "start": start, "count": 100})
     return specs
 
 
 def floors(tier):
-    return {"evaluations": 3000, "distinct_nontrivial": 400, "observed.thunk_selftests": 16,
-            "observed.direction.A": 900, "observed.direction.B": 900, "observed.direction.C": 900,
+    return {"evaluations": 3500, "distinct_nontrivial": 450, "observed.thunk_selftests": 16,
+            "observed.direction.A": 1500, "observed.direction.B": 1200, "observed.direction.C": 1200,
             "observed.ret": 12, "observed.nparams": 13, "observed.level": 2,
-            "observed.param_location.long:stack": 20, "observed.param_location.double:freg": 100}
+            "observed.param_location.int:stack": 20, "observed.param_location.long:stack": 4,
+            "observed.param_location.ptr:stack": 4, "observed.param_location.double:freg": 300,
+            "observed.param_location.float:freg": 300, "observed.param_location.char:ireg": 50}
 
 
-def make_sigs(spec):
-    sigs = []
-    for j in range(spec["start"], spec["start"] + spec["count"]):
-        r = rng(spec["seed"], PROPERTY, j)
-        force = RET_TYPES[j % len(RET_TYPES)] if j % 3 == 0 else None
-        ret, params = gen_signature(r, spec["avoid"], force)
-        sigs.append({"k": j, "ret": ret, "params": params, "vectors": gen_vectors(r, ret, params)})
-    return sigs
+def make_sig(seed, j, avoid):
+    r = rng(seed, PROPERTY, j)
+    force = RET_TYPES[j % len(RET_TYPES)] if j % 3 == 0 else None
+    ret, raw = gen_signature(r, force)
+    params, dirs, used = apply_avoid(raw, avoid)
+    # the vectors are drawn for the parameter list that is actually used
+    sig = {"k": j, "ret": ret, "params": params, "dirs": dirs, "vectors": gen_vectors(r, ret, params)}
+    return sig, raw, used
 
 
 def run_shard(spec):
@@ -729,12 +753,63 @@ def run_shard(spec):
     mon = new_mon()
     if spec["part"] == "replay":
         run_batch(spec["sigs"], spec["level"], tmp, "replay", mon)
+    elif spec["part"] == "census":
+        census(spec, tmp, mon)
     else:
-        sigs = make_sigs(spec)
+        sigs = []
+        for j in range(spec["start"], spec["start"] + spec["count"]):
+            sig, raw, used = make_sig(spec["seed"], j, spec["avoid"])
+            for key in used:
+                mon["observed"]["avoid_switch_used"][key] = mon["observed"]["avoid_switch_used"].get(key, 0) + 1
+            sigs.append(sig)
         for level in (0, 2):
             run_batch(sigs, level, tmp, "b%d_%d" % (spec["start"], level), mon)
     mon["violations"] = mon["violations"][:6]
     return mon
 
 
-PROBES = {}
+def census(spec, tmp, mon):
+    """Signatures whose raw form contains a trigger construct of an open finding are run unrestricted; the rewritten
+    form of the same signature is part of the main sweep (that is the neutralise-and-retest), so a failure here is
+    counted under the keys of the switches that rewrite it and never judged."""
+    if not spec["avoid"]:
+        return
+    for j in range(spec["start"], spec["start"] + spec["count"]):
+        sig, raw, used = make_sig(spec["seed"], j, spec["avoid"])
+        if not used:
+            continue
+        r = rng(spec["seed"], PROPERTY, "census-%d" % j)
+        rawsig = {"k": j, "ret": sig["ret"], "params": raw, "dirs": "ABC", "vectors": gen_vectors(r, sig["ret"], raw, 1)}
+        sub = new_mon()
+        run_batch([rawsig], 0, tmp, "census%d" % j, sub)
+        mon["inconclusive"] += sub["inconclusive"]
+        c = mon["observed"]["census"]
+        lab = "+".join(used) + (": fails" if sub["violations"] else ": passes")
+        c[lab] = c.get(lab, 0) + 1
+
+
+# ---------------------------------------------------------------------------
+# witness probes
+
+
+def _probe(ret, params, dirs):
+    def run():
+        tmp = os.environ.get("VERIF_TMP") or os.getcwd()
+        r = rng(0, PROPERTY, "probe")
+        sig = {"k": 0, "ret": ret, "params": params, "dirs": dirs, "vectors": gen_vectors(r, ret, params, 2)}
+        mon = new_mon()
+        for level in (0, 2):
+            run_batch([sig], level, tmp, "probe%d" % level, mon)
+        if mon["inconclusive"]:
+            raise RuntimeError(mon["inconclusive"][0])
+        if mon["violations"]:
+            return mon["violations"][0]["summary"]
+        return None
+    return run
+
+
+PROBES = {
+    F_SUBINT: _probe("void", ["long"] * 6 + ["char", "short"], "ABC"),
+    F_FPCALL: _probe("void", ["double"] * 8 + ["double", "float"], "BC"),
+    F_FPSLOT: _probe("void", ["double"] * 8 + ["float", "float", "double", "long"], "A"),
+}
